@@ -43,6 +43,7 @@ type script struct {
 	Mode  string `json:"mode"`
 	Pre   []node `json:"pre"`
 	Steps []step `json:"steps"`
+	Loc   *int   `json:"loc,omitempty"` // replay: the location variant of the transfer folder (default: run % 3)
 }
 
 func names(p [][]int) []string {
@@ -139,8 +140,10 @@ func (x *xfer) waitFinished() string {
 }
 
 type worker struct {
-	w *sim.World
-	c *sim.Client
+	w     *sim.World
+	c     *sim.Client
+	fname string   // name of the transfer folder of the current script
+	fpath []string // path items below the file root where it lives
 }
 
 type ev = map[string]any
@@ -148,13 +151,27 @@ type ev = map[string]any
 func (wk *worker) runScript(run int, sc script) []ev {
 	evs := []ev{}
 	runDir := fmt.Sprintf("r%d", run)
-	F := filepath.Join(wk.w.Root, runDir, "F")
+	// where the transfer folder lives (the model is relative to it; the statement wants item paths relative to the
+	// requested folder wherever that is): directly below the run's directory, below an ancestor of the same name, or
+	// named like the file root's own last component
+	wk.fname, wk.fpath = "F", []string{runDir}
+	loc := run % 3
+	if sc.Loc != nil {
+		loc = *sc.Loc
+	}
+	switch loc {
+	case 1:
+		wk.fpath = []string{runDir, "F"}
+	case 2:
+		wk.fname = filepath.Base(wk.w.Root)
+	}
+	F := filepath.Join(wk.w.Root, filepath.Join(wk.fpath...), wk.fname)
 	pre := []ev{}
 	for _, n := range sc.Pre {
 		pre = append(pre, ev{"path": n.Path, "kind": n.Kind, "size": n.Size, "partial": n.Partial})
 	}
-	evs = append(evs, ev{"op": "world", "run": run, "mode": sc.Mode, "pre": pre})
-	if err := os.MkdirAll(filepath.Join(wk.w.Root, runDir), 0755); err != nil {
+	evs = append(evs, ev{"op": "world", "run": run, "mode": sc.Mode, "pre": pre, "folder": wk.fname, "below": wk.fpath})
+	if err := os.MkdirAll(filepath.Join(wk.w.Root, filepath.Join(wk.fpath...)), 0755); err != nil {
 		panic(err)
 	}
 	if sc.Mode == "down" || len(sc.Pre) > 0 {
@@ -217,7 +234,7 @@ func (wk *worker) runScript(run int, sc script) []ev {
 
 func (wk *worker) download(run int, runDir string, acts map[string]step) []ev {
 	var evs []ev
-	rep, err := wk.c.Request(sim.TDownloadFldr, sim.Fld(sim.FFileName, []byte("F")), sim.Fld(sim.FFilePath, sim.EncPath(runDir)))
+	rep, err := wk.c.Request(sim.TDownloadFldr, sim.Fld(sim.FFileName, []byte(wk.fname)), sim.Fld(sim.FFilePath, sim.EncPath(wk.fpath...)))
 	count := -1
 	if c, ok := rep.Get(sim.FFolderItemCount); ok {
 		count = sim.BE(c)
@@ -285,7 +302,7 @@ func (wk *worker) download(run int, runDir string, acts map[string]step) []ev {
 				o := parseObject(fb[4:], act == 2)
 				e["obj"] = o.OK
 				if o.OK {
-					src := Content(keyOf(h.Path), diskSize(filepath.Join(wk.w.Root, runDir, "F", filepath.Join(h.Path...))))
+					src := Content(keyOf(h.Path), diskSize(filepath.Join(wk.w.Root, filepath.Join(wk.fpath...), wk.fname, filepath.Join(h.Path...))))
 					e["hdr"] = o.HdrLen
 					e["dlen"] = len(o.Data)
 					e["rsrc"] = o.RsrcLen
@@ -357,7 +374,7 @@ func (wk *worker) upload(run int, runDir, F string, count int, items []step) (ev
 	for _, it := range items {
 		total += it.Size
 	}
-	rep, err := wk.c.Request(sim.TUploadFldr, sim.Fld(sim.FFileName, []byte("F")), sim.Fld(sim.FFilePath, sim.EncPath(runDir)),
+	rep, err := wk.c.Request(sim.TUploadFldr, sim.Fld(sim.FFileName, []byte(wk.fname)), sim.Fld(sim.FFilePath, sim.EncPath(wk.fpath...)),
 		sim.Fld(sim.FTransferSize, sim.U32(total)), sim.Fld(sim.FFolderItemCount, sim.U16(count)))
 	ref, okRef := rep.Get(sim.FRefNum)
 	bad := err != nil || rep.Err != 0 || !okRef || len(ref) != 4
